@@ -46,8 +46,9 @@ VARIABLES snap, log, tmp, logOpen,   \* the files (+ whether the append stream i
           cur, pc,                   \* API call in flight and its remaining file operations
           up,                        \* process alive?
           base,                      \* ghost: map after the last completed operation (Abs baseline)
-          nops, ncrash, ok, hist
-vars == <<snap, log, tmp, logOpen, mem, cur, pc, up, base, nops, ncrash, ok, hist>>
+          nops, ncrash, ok,
+          hist, fhist                \* generator mode only: API history and the file operations it issued
+vars == <<snap, log, tmp, logOpen, mem, cur, pc, up, base, nops, ncrash, ok, hist, fhist>>
 
 NoRec == [op |-> "-", k |-> 0, v |-> 0, e |-> 0, torn |-> "ok"]
 Rec(o, k, v, e) == [op |-> o, k |-> k, v |-> v, e |-> e, torn |-> "ok"]
@@ -108,7 +109,7 @@ FileOps(o, m, ord) ==
 
 Init == /\ snap = [present |-> FALSE, m |-> EmptyMap] /\ log = <<>> /\ tmp = NoTmp /\ logOpen = TRUE
         /\ mem = EmptyMap /\ cur = Nop /\ pc = <<>> /\ up = TRUE /\ base = EmptyMap
-        /\ nops = 0 /\ ncrash = 0 /\ ok = TRUE /\ hist = <<>>
+        /\ nops = 0 /\ ncrash = 0 /\ ok = TRUE /\ hist = <<>> /\ fhist = <<>>
 
 (* ------------------------------------------------------------------ API call / return *)
 Call(o, ord) ==
@@ -116,16 +117,17 @@ Call(o, ord) ==
     /\ cur' = o
     /\ mem' = Eff(o, mem)                  \* the code updates memory first, then writes the log
     /\ pc' = FileOps(o, mem, ord)
-    /\ UNCHANGED <<snap, log, tmp, logOpen, up, base, nops, ncrash, ok, hist>>
+    /\ UNCHANGED <<snap, log, tmp, logOpen, up, base, nops, ncrash, ok, hist, fhist>>
 
 Ret == /\ up /\ cur # Nop /\ pc = <<>>
        /\ base' = Eff(cur, base)
        /\ cur' = Nop /\ nops' = nops + 1
-       /\ hist' = IF Emit THEN Append(hist, cur) ELSE hist
-       /\ UNCHANGED <<snap, log, tmp, logOpen, mem, pc, up, ncrash, ok>>
+       /\ hist' = (IF Emit THEN Append(hist, cur) ELSE hist)
+       /\ UNCHANGED <<snap, log, tmp, logOpen, mem, pc, up, ncrash, ok, fhist>>
 
 (* ------------------------------------------------------------------ file operations, one action each *)
-Stepping(t) == up /\ pc # <<>> /\ Head(pc).t = t /\ pc' = Tail(pc)
+Stepping(t) == /\ up /\ pc # <<>> /\ Head(pc).t = t /\ pc' = Tail(pc)
+               /\ fhist' = (IF Emit THEN Append(fhist, t) ELSE fhist)
                /\ UNCHANGED <<mem, cur, up, base, nops, ncrash, ok, hist>>
 
 StepAppend     == Stepping("Append") /\ logOpen /\ log' = Append(log, Head(pc).r) /\ UNCHANGED <<snap, tmp, logOpen>>
@@ -138,7 +140,7 @@ StepOpenAppend == Stepping("OpenAppend") /\ logOpen' = TRUE /\ UNCHANGED <<snap,
 
 (* ------------------------------------------------------------------ crashes and clean close *)
 Die == /\ up' = FALSE /\ pc' = <<>> /\ mem' = EmptyMap /\ logOpen' = FALSE
-       /\ UNCHANGED <<cur, base, nops, ok, hist>>
+       /\ UNCHANGED <<cur, base, nops, ok, hist, fhist>>
 
 CrashBetween == /\ up /\ ncrash < MaxCrash /\ ncrash' = ncrash + 1 /\ Die
                 /\ UNCHANGED <<snap, log, tmp>>
@@ -156,8 +158,8 @@ CrashInWriteTmp ==
 CleanClose == /\ up /\ cur = Nop /\ pc = <<>> /\ nops < MaxOps /\ "reopen" \in OpKinds
               /\ up' = FALSE /\ logOpen' = FALSE /\ mem' = EmptyMap
               /\ nops' = nops + 1
-              /\ hist' = IF Emit THEN Append(hist, Op("reopen", 0, 0, 0)) ELSE hist
-              /\ UNCHANGED <<snap, log, tmp, cur, pc, base, ncrash, ok>>
+              /\ hist' = (IF Emit THEN Append(hist, Op("reopen", 0, 0, 0)) ELSE hist)
+              /\ UNCHANGED <<snap, log, tmp, cur, pc, base, ncrash, ok, fhist>>
 
 (* ------------------------------------------------------------------ reopen = load + truncate + open append *)
 Reopen ==
@@ -171,7 +173,7 @@ Reopen ==
        /\ base' = rec
     /\ nops' = IF cur # Nop THEN nops + 1 ELSE nops
     /\ cur' = Nop /\ up' = TRUE /\ logOpen' = TRUE
-    /\ UNCHANGED <<snap, tmp, pc, ncrash, hist>>
+    /\ UNCHANGED <<snap, tmp, pc, ncrash, hist, fhist>>
 
 Next == \/ \E o \in Ops, ord \in Orders : Call(o, ord)
         \/ Ret
@@ -202,5 +204,7 @@ OpStr(o) ==
       [] OTHER          -> o.op             \* clear, compact, reopen
 RECURSIVE JoinOps(_)
 JoinOps(s) == IF s = <<>> THEN "" ELSE OpStr(Head(s)) \o (IF Len(s) > 1 THEN ";" ELSE "") \o JoinOps(Tail(s))
-EmitInv == (Emit /\ up /\ cur = Nop /\ nops = MaxOps) => PrintT("HIST " \o JoinOps(hist))
+RECURSIVE JoinS(_)
+JoinS(s) == IF s = <<>> THEN "" ELSE Head(s) \o (IF Len(s) > 1 THEN "," ELSE "") \o JoinS(Tail(s))
+EmitInv == (Emit /\ up /\ cur = Nop /\ nops = MaxOps) => PrintT("HIST " \o JoinOps(hist) \o " # " \o JoinS(fhist))
 =============================================================================
